@@ -73,15 +73,51 @@ Proof. vm_compute. reflexivity. Qed.
 
 (* (b) each half of the repair alone still allows two executions *)
 Definition lock_only : cfg :=
-  {| use_lock := true; use_wcheck := false; read_absent_empty := false; max_submit := half_hour |}.
+  {| use_lock := true; use_wcheck := false; read_absent_empty := false; read_before_lock := false; max_submit := half_hour |}.
 Definition wcheck_only : cfg :=
-  {| use_lock := false; use_wcheck := true; read_absent_empty := false; max_submit := half_hour |}.
+  {| use_lock := false; use_wcheck := true; read_absent_empty := false; read_before_lock := false; max_submit := half_hour |}.
 
 Lemma mutex_without_waiter_check_refuted : execs_after lock_only tr_seq 0 = Some 2%nat.
 Proof. vm_compute. reflexivity. Qed.
 
 Lemma waiter_check_without_mutex_refuted : execs_after wcheck_only tr_race 0 = Some 2%nat.
 Proof. vm_compute. reflexivity. Qed.
+
+(* the ordering "store.Read before startMu.Lock" (mutex and waiter check both kept): call B reads the plan as
+   NotStarted and is held up; call A starts the plan and its execution runs to its very end (waiter deleted);
+   B then takes the mutex, finds no waiter, validates its STALE snapshot and runs the finished plan again.
+   A racing burst does not show this: while A's execution is in flight B is rejected by the waiter check. *)
+Definition read_first : cfg :=
+  {| use_lock := true; use_wcheck := true; read_absent_empty := false; read_before_lock := true;
+     max_submit := half_hour |}.
+
+Definition tr_stale_read : list label :=
+  [LSubmit true;
+   LStartEnter 0; LStartRead 0;                      (* B: snapshot NotStarted *)
+   LStartEnter 0; LStartRead 1; LStartLaunch 1;      (* A: whole call *)
+   LEngRunning 0 0; LEngFinish 0 0 Completed; LEngRelease 0 0; LEngCleanup 0 0;
+   LStartLaunch 0].                                  (* B: lock, waiter check passes, launch *)
+
+Definition tr_stale_read_in_flight : list label :=
+  [LSubmit true; LStartEnter 0; LStartRead 0; LStartEnter 0; LStartRead 1; LStartLaunch 1;
+   LEngRunning 0 0; LStartLaunch 0].
+
+Lemma read_before_lock_refuted :
+  execs_after read_first tr_stale_read 0 = Some 2%nat
+  /\ results_of read_first tr_stale_read
+     = Some [ROk; RNone; RNone; RNone; RNone; ROk; RNone; RNone; RNone; RNone; ROk].
+Proof. split; vm_compute; reflexivity. Qed.
+
+Lemma read_before_lock_hidden_while_in_flight :
+  execs_after read_first tr_stale_read_in_flight 0 = Some 1%nat
+  /\ results_of read_first tr_stale_read_in_flight = Some [ROk; RNone; RNone; RNone; RNone; ROk; RNone; RRejected].
+Proof. split; vm_compute; reflexivity. Qed.
+
+(* the code's own ordering cannot do that: the second call cannot even enter while the first is in progress *)
+Lemma fixed_cannot_read_before_lock :
+  run (fixed half_hour) (init 1000) (firstn 4 tr_stale_read) = None
+  /\ run (fixed half_hour) (init 1000) [LSubmit true; LStartEnter 0; LStartRead 0] = None.
+Proof. split; vm_compute; reflexivity. Qed.
 
 (* the mutex does what it is there for: a second Start cannot even enter while one is in progress *)
 Lemma mutex_blocks_second_enter :
